@@ -2,6 +2,7 @@
 
 import functools
 import itertools
+import numbers
 import operator
 import contextlib
 
@@ -490,6 +491,14 @@ def _parse_tensordot_axes_to_matmul(axes, shape_a, shape_b):
         axes_b = tuple(range(axes))
     else:
         axes_a, axes_b = axes
+        # as for numpy: a single axis can be given as a plain int, and axes
+        # can be counted from the end
+        if isinstance(axes_a, numbers.Integral):
+            axes_a = (axes_a,)
+        if isinstance(axes_b, numbers.Integral):
+            axes_b = (axes_b,)
+        axes_a = tuple(ax + ndim_a if ax < 0 else ax for ax in axes_a)
+        axes_b = tuple(ax + ndim_b if ax < 0 else ax for ax in axes_b)
 
     num_con = len(axes_a)
     if num_con != len(axes_b):
@@ -548,8 +557,13 @@ def tensordot(a, b, axes=2, *, backend=None):
     array_like
     """
     try:
-        # ensure hashable
-        axes = tuple(map(int, axes[0])), tuple(map(int, axes[1]))
+        # ensure hashable (n.b. a single axis can be given as a plain int)
+        axes = tuple(
+            (int(ax),)
+            if isinstance(ax, numbers.Integral)
+            else tuple(map(int, ax))
+            for ax in (axes[0], axes[1])
+        )
     except (IndexError, TypeError):
         axes = int(axes)
 
